@@ -344,6 +344,30 @@ impl FileSpec {
         }
     }
 
+    // Direct timestamp naming with append: the file to continue is the newest one that carries this
+    // timestamp, i.e. the plain file with the highest `.restart-NNNN` number if such siblings
+    // exist, else the plain base file; if there is no plain file to append to, a name is chosen
+    // that collides with nothing (neither plain nor compressed)
+    pub(crate) fn infix_of_file_to_append_to(&self, infix: &str) -> String {
+        let plain_files =
+            self.list_of_files(&InfixFilter::Equls(infix.to_string()), self.o_suffix.as_deref());
+        let highest_restart = plain_files
+            .iter()
+            .filter_map(|path| {
+                let name = path.file_name()?.to_string_lossy().to_string();
+                let index = name.find(".restart-")?;
+                name.get((index + 9)..(index + 13))?.parse::<usize>().ok()
+            })
+            .max();
+        if let Some(n) = highest_restart {
+            format!("{infix}.restart-{n:04}")
+        } else if self.as_pathbuf(Some(infix)).exists() {
+            infix.to_string()
+        } else {
+            self.collision_free_infix_for_rotated_file(infix)
+        }
+    }
+
     pub(crate) fn list_of_files(
         &self,
         infix_filter: &InfixFilter,
